@@ -4,6 +4,7 @@ from .common import *
 from vsym.core import s_min
 
 PROPERTY = 'C09'
+PYTHON_O = ['cut1/vbs/blocked', 'cut1/ipm/unblocked']      # obligations that are also explored with the modules compiled as under python -O
 ASSUMPTIONS = [
     'file object = RopeFile; truncation = prefix of the writer output at a symbolic byte offset t (every offset 0..len)',
     'record content opaque; a cut inside a 4-byte length prefix leaves an opaque fragment that unpacks only when re-joined whole',
@@ -15,7 +16,7 @@ def _funcs():
     return [m.VbsReader.__next__, m.IpmReader.__next__, m.Unblock1014.read, m.VbsWriter.write, m.VbsWriter.close, m.Block1014.write]
 
 
-def truncated(kind, blocked, bounds, tsplit=None):
+def truncated(kind, blocked, bounds, tsplit=None, api='class'):
     nblocks = (sum(bounds) + 4 * len(bounds) + 4) // 1012 + 2
 
     def h():
@@ -27,7 +28,7 @@ def truncated(kind, blocked, bounds, tsplit=None):
         recs = vals = None
 
         def rp():
-            a = {'kind': kind, 'blocked': blocked, 'lengths': [ev(n) for n in ns], 't': ev(t)}
+            a = {'kind': kind, 'blocked': blocked, 'lengths': [ev(n) for n in ns], 't': ev(t), 'api': api}
             a['items'] = [concretize(r, ev) for r in recs] if kind == 'vbs' else [concretize(v, ev) for v in vals]
             return {'kind': 'truncate', 'args': a}
         core.set_fallback(rp, 'C09/concretised')
@@ -69,10 +70,24 @@ def truncated(kind, blocked, bounds, tsplit=None):
             surv = (t // 1014) * 1012 + s_min(t % 1014, 1012)
         else:
             surv = t
-        rd = (m.VbsReader if kind == 'vbs' else m.IpmReader)(RopeFile(cut), blocked=blocked)
         got = []
         end = None
-        while True:
+        if api == 'func':
+            # the list/bytes convenience function: either the library error, or exactly the complete records
+            core.FUEL.set(nblocks + 8)
+            try:
+                got = m.vbs_bytes_to_list(cut, blocked=True) if blocked else m.vbs_bytes_to_list(cut)
+                end = 'stop'
+            except m.MciIpmDataError:
+                got, end = [], 'error-func'
+            except core.ControlFlow:
+                raise
+            except Exception as e:
+                fail('vbs_bytes_to_list raised %s on truncated data' % type(e).__name__, key='C09/exception', replay=rp)
+            require(len(got) <= len(ns), 'reader invented a record', key='C09/invented', replay=rp)
+        else:
+            rd = (m.VbsReader if kind == 'vbs' else m.IpmReader)(RopeFile(cut), blocked=blocked)
+        while api != 'func':
             core.FUEL.set(nblocks + 4)
             try:
                 got.append(next(rd))
@@ -96,7 +111,7 @@ def truncated(kind, blocked, bounds, tsplit=None):
                 req_eq(got[i], recs[i], 'record %d altered' % (i + 1), key='C09/altered', replay=rp)
             else:
                 req_eq(got[i].get('DE2'), vals[i], 'record %d altered' % (i + 1), key='C09/altered', replay=rp)
-        if c < len(ns):
+        if c < len(ns) and end != 'error-func':
             require(s_not(ends[c] <= surv), 'complete record %d was not delivered' % (c + 1), key='C09/lost', replay=rp)
         return {'sample': {'lengths': [ev(n) for n in ns], 't': ev(t), 'size': ev(size), 'delivered': c, 'end': end}, 'replay': rp()}
     return h
@@ -119,6 +134,9 @@ def obligations(tier):
                 for j in range(nb):
                     obs.append(Ob('cut2/%s/t-in-block-%d' % (tag, j), truncated(kind, blocked, [mx, mx], (j * 1014, (j + 1) * 1014 if j < nb - 1 else None)), 600,
                                   'two records of length 1..%d, cut offset in block %d' % (mx, j), _funcs))
+    for blocked in (False, True):
+        obs.append(Ob('cut2-func/vbs/%s' % ('blocked' if blocked else 'unblocked'), truncated('vbs', blocked, [1200, 600] if blocked else [2500, 2500], api='func'), 400,
+                      'vbs_bytes_to_list on truncated data (no options for plain VBS, blocked=True for 1014): two records, every cut offset', _funcs))
     if not q:
         obs.append(Ob('cut3/vbs/unblocked', truncated('vbs', False, [6000, 6000, 6000]), 600, 'three records 1..6000, every cut offset', _funcs))
     return obs
